@@ -159,6 +159,7 @@ def system_for(case, rnd):
     # make sure the model exercises every server type: csrv autoscaling (forbids a fixed count), srv0 on-premise
     spec["objects"]["srv0"]["params"]["server_type"] = ["s", "on-premise"]
     spec["objects"]["csrv"]["params"]["server_type"] = ["s", "autoscaling"]
+    spec["objects"]["csrv"]["params"]["fixed_nb_of_instances"] = ["none"]
     spec["objects"]["gsrv"]["params"]["server_type"] = ["s", "serverless"]
     return spec
 
